@@ -134,37 +134,59 @@ Proof.
   apply N.div_small_iff in H0; lia.
 Qed.
 
+Lemma inert_lock ex : inert (lock_steps ex).
+Proof. intros l e X. destruct ex; cbn in X; repeat (destruct X as [X|X]; [inversion X; auto|]); contradiction. Qed.
+Lemma inert_unlock ex : inert (unlock_steps ex).
+Proof. intros l e X. destruct ex; cbn in X; repeat (destruct X as [X|X]; [inversion X; auto|]); contradiction. Qed.
+
+(* the write up to and including the rename, and the deferred calls after it *)
+Definition write_body (i : nat) (L : N) (ex : bool) : list (string * eff) :=
+  ([("WriteBlock:os.MkdirAll"%string, EMkdir i); ("WriteBlock:v.os.TempFile"%string, ECreate i)] ++ write_steps i L 0 (nwrites L) ++
+   [("WriteBlock:tmpfile.Close"%string, ENone); ("WriteBlock:os.Chtimes"%string, ENone)] ++ lock_steps ex)%list.
+Definition write_core (i : nat) (L : N) (ex : bool) : list (string * eff) :=
+  (write_body i L ex ++ [("WriteBlock:v.os.Rename"%string, ERename i)])%list.
+Lemma write_complete_split i L ex :
+  fst (write_block i L Complete ex) = (write_core i L ex ++ unlock_steps ex)%list.
+Proof. unfold write_core, write_body. cbn [write_block fst]. rewrite <- !app_assoc. reflexivity. Qed.
+
 (* the complete write: the target volume ends with the block file = the body, no temp file *)
-Lemma vrun_write_complete L i v : d_blk (vrun L (fst (write_block i L Complete)) i v) = Some KGood /\
-                                   d_tmp (vrun L (fst (write_block i L Complete)) i v) = None.
+Lemma vrun_write_core L i ex v : d_blk (vrun L (write_core i L ex) i v) = Some KGood /\
+                                  d_tmp (vrun L (write_core i L ex) i v) = None.
 Proof.
-  cbn [write_block fst]. rewrite !vrun_app. cbn [vrun veff]. rewrite !Nat.eqb_refl.
+  unfold write_core, write_body. rewrite !vrun_app. rewrite (vrun_inert L (lock_steps ex)) by apply inert_lock.
+  cbn [vrun veff]. rewrite !Nat.eqb_refl.
   set (v1 := {| d_ro := d_ro _; d_dir := d_dir _; d_blk := d_blk _; d_tmp := Some 0 |}).
   destruct (nwrites L) as [|n] eqn:En.
   - cbn [write_steps vrun]. subst v1. cbn. rewrite (nwrites_zero L En). split; reflexivity.
   - rewrite vrun_writes by lia. cbn [set_tmp d_tmp d_blk d_ro d_dir]. rewrite Nat.add_0_l, <- En.
     rewrite nwrites_covers by lia. rewrite N.eqb_refl. split; reflexivity.
 Qed.
-Lemma vrun_write_other L i j src v : i <> j -> vrun L (fst (write_block i L src)) j v = v.
+Lemma vrun_write_complete L i ex v : d_blk (vrun L (fst (write_block i L Complete ex)) i v) = Some KGood /\
+                                      d_tmp (vrun L (fst (write_block i L Complete ex)) i v) = None.
+Proof. rewrite write_complete_split, vrun_app, (vrun_inert L (unlock_steps ex)) by apply inert_unlock. apply vrun_write_core. Qed.
+Lemma vrun_write_other L i j src ex v : i <> j -> vrun L (fst (write_block i L src ex)) j v = v.
 Proof.
   intros Hij. destruct src; cbn [write_block fst]; rewrite ?vrun_app; cbn [vrun veff];
-  destruct (Nat.eqb_spec i j); try contradiction; rewrite ?writes_other by exact Hij; reflexivity.
+  destruct (Nat.eqb_spec i j); try contradiction; rewrite ?writes_other by exact Hij;
+  rewrite ?(vrun_inert L (lock_steps ex)) by apply inert_lock; rewrite ?(vrun_inert L (unlock_steps ex)) by apply inert_unlock;
+  cbn [vrun veff]; destruct (Nat.eqb_spec i j); try contradiction; reflexivity.
 Qed.
 (* a write that fails (context cancelled): no rename, temp file removed *)
-Lemma vrun_write_failed L i w v : d_blk (vrun L (fst (write_block i L (FailsAfter w))) i v) = d_blk v /\
-                                   d_tmp (vrun L (fst (write_block i L (FailsAfter w))) i v) = None.
+Lemma vrun_write_failed L i w ex v : d_blk (vrun L (fst (write_block i L (FailsAfter w) ex)) i v) = d_blk v /\
+                                      d_tmp (vrun L (fst (write_block i L (FailsAfter w) ex)) i v) = None.
 Proof.
   cbn [write_block fst]. rewrite !vrun_app. cbn [vrun veff]. rewrite !Nat.eqb_refl. cbn [d_blk d_tmp].
   split; [|reflexivity]. rewrite vrun_no_rename by apply writes_no_rename. reflexivity.
 Qed.
 
 (* every proper prefix of the complete write has no rename *)
-Lemma firstn_snoc_cases {A} (xs : list A) (x : A) k :
-  firstn k (xs ++ [x]) = xs ++ [x] \/ exists m, firstn k (xs ++ [x]) = firstn m xs.
+Lemma firstn_mid_cases {A} (xs : list A) (x : A) (ts : list A) k :
+  (exists m, firstn k ((xs ++ [x]) ++ ts) = (xs ++ [x]) ++ firstn m ts) \/ exists m, firstn k ((xs ++ [x]) ++ ts) = firstn m xs.
 Proof.
   destruct (le_lt_dec (S (List.length xs)) k) as [H|H].
-  - left. apply firstn_all2. rewrite app_length. cbn. lia.
-  - right. exists k. rewrite firstn_app. replace (k - List.length xs)%nat with O by lia. cbn. apply app_nil_r.
+  - left. exists (k - S (List.length xs))%nat. rewrite firstn_app. rewrite firstn_all2 by (rewrite app_length; cbn; lia).
+    rewrite app_length. cbn [List.length]. replace (List.length xs + 1)%nat with (S (List.length xs)) by lia. reflexivity.
+  - right. exists k. rewrite <- app_assoc. rewrite firstn_app. replace (k - List.length xs)%nat with O by lia. cbn. apply app_nil_r.
 Qed.
 Lemma firstn_In {A} (l : list A) : forall k x, In x (firstn k l) -> In x l.
 Proof. induction l as [|y r IH]; intros [|k] x H; cbn in *; try contradiction. destruct H; [left; assumption|right; eapply IH; eauto]. Qed.
@@ -173,20 +195,15 @@ Proof. intros Hn l i X. apply (Hn l i). eapply firstn_In; eauto. Qed.
 Lemma no_rename_app a b : no_rename a -> no_rename b -> no_rename (a ++ b).
 Proof. intros Ha Hb l i X. apply in_app_or in X. destruct X; [eapply Ha|eapply Hb]; eassumption. Qed.
 
-Definition write_body (i : nat) (L : N) : list (string * eff) :=
-  ([("WriteBlock:os.MkdirAll"%string, EMkdir i); ("WriteBlock:v.os.TempFile"%string, ECreate i)] ++ write_steps i L 0 (nwrites L) ++
-   [("WriteBlock:tmpfile.Close"%string, ENone); ("WriteBlock:os.Chtimes"%string, ENone)])%list.
-Lemma write_complete_split i L :
-  fst (write_block i L Complete) = (write_body i L ++ [("WriteBlock:v.os.Rename"%string, ERename i)])%list.
-Proof. unfold write_body. cbn [write_block fst]. rewrite <- !app_assoc. reflexivity. Qed.
-Lemma write_body_no_rename i L : no_rename (write_body i L).
+Lemma write_body_no_rename i L ex : no_rename (write_body i L ex).
 Proof.
-  unfold write_body. apply no_rename_app; [|apply no_rename_app].
+  unfold write_body. apply no_rename_app; [|apply no_rename_app; [|apply no_rename_app]].
   - intros l k X. cbn in X. destruct X as [X|[X|[]]]; inversion X.
   - apply writes_no_rename.
   - intros l k X. cbn in X. destruct X as [X|[X|[]]]; inversion X.
+  - apply inert_no_rename. apply inert_lock.
 Qed.
-Lemma write_failed_no_rename i L w : no_rename (fst (write_block i L (FailsAfter w))).
+Lemma write_failed_no_rename i L w ex : no_rename (fst (write_block i L (FailsAfter w) ex)).
 Proof.
   cbn [write_block fst]. apply no_rename_app; [|apply no_rename_app].
   - intros l k X. cbn in X. destruct X as [X|[X|[]]]; inversion X.
@@ -216,8 +233,8 @@ Qed.
 Inductive shape (vs : list vold) (L : N) (src : source) : list (string * eff) -> bool -> Prop :=
 | sh_inert t ok : inert t -> (ok = true -> exists v, In v vs /\ d_ro v = false /\ d_blk v = Some KGood) ->
                   shape vs L src t ok
-| sh_write t i : inert t -> (i < List.length vs)%nat -> (match src with CancelledIn _ => False | _ => True end) ->
-                 shape vs L src (t ++ fst (write_block i L src)) (snd (write_block i L src)).
+| sh_write t i ex : inert t -> (i < List.length vs)%nat -> (match src with CancelledIn _ => False | _ => True end) ->
+                 shape vs L src (t ++ fst (write_block i L src ex)) (snd (write_block i L src ex)).
 
 Lemma cat_ok_good : forall vs i, snd (compare_and_touch vs i) = true -> exists v, In v vs /\ d_ro v = false /\ d_blk v = Some KGood.
 Proof.
@@ -235,28 +252,19 @@ Qed.
 Lemma put_prog_shape vs L src : shape vs L src (fst (put_prog vs L src)) (snd (put_prog vs L src)).
 Proof.
   unfold put_prog. destruct (nwritable vs) as [|n] eqn:En; [apply sh_inert; [intros l e []|discriminate]|].
-  assert (Hcut : forall nv, src = CancelledIn nv -> shape vs L src (compare_cut vs nv) false).
-  { intros nv _. apply sh_inert; [apply inert_cut|discriminate]. }
-  assert (Hgen : (match src with CancelledIn _ => False | _ => True end) ->
-    shape vs L src
-      (fst (let '(t, ok) := compare_and_touch vs 0 in
-            if ok then (t, true) else match nth_writable vs (1 mod S n) 0 with
-                                      | Some i => let '(w, ok') := write_block i L src in ((t ++ w)%list, ok')
-                                      | None => (t, false) end))
-      (snd (let '(t, ok) := compare_and_touch vs 0 in
-            if ok then (t, true) else match nth_writable vs (1 mod S n) 0 with
-                                      | Some i => let '(w, ok') := write_block i L src in ((t ++ w)%list, ok')
-                                      | None => (t, false) end))).
-  { intros Hs. pose proof (inert_cat vs 0) as Hi. pose proof (cat_ok_good vs 0) as Hg.
-    destruct (compare_and_touch vs 0) as [t ok]. cbn [fst snd] in *. destruct ok.
-    - cbn [fst snd]. apply sh_inert; [exact Hi|intros _; apply Hg; reflexivity].
-    - destruct (nth_writable vs (1 mod S n) 0) as [i|] eqn:Ew; cbn [fst snd]; [|apply sh_inert; [exact Hi|discriminate]].
-      pose proof (nth_writable_lt _ _ _ _ Ew).
-      destruct (write_block i L src) as [w ok'] eqn:Eb. cbn [fst snd].
-      replace w with (fst (write_block i L src)) by (rewrite Eb; reflexivity).
-      replace ok' with (snd (write_block i L src)) by (rewrite Eb; reflexivity).
-      apply sh_write; [exact Hi|lia|exact Hs]. }
-  destruct src as [|w|nv]; [apply Hgen; exact I|apply Hgen; exact I|cbn [fst snd]; apply (Hcut nv); reflexivity].
+  destruct src as [|w|nv].
+  3:{ cbn [fst snd]. apply sh_inert; [apply inert_cut|discriminate]. }
+  all: pose proof (inert_cat vs 0) as Hi; pose proof (cat_ok_good vs 0) as Hg;
+       destruct (compare_and_touch vs 0) as [t ok]; cbn [fst snd] in *; destruct ok;
+       [cbn [fst snd]; apply sh_inert; [exact Hi|intros _; apply Hg; reflexivity]|];
+       destruct (nth_writable vs (1 mod S n) 0) as [i|] eqn:Ew; cbn [fst snd]; [|apply sh_inert; [exact Hi|discriminate]];
+       pose proof (nth_writable_lt _ _ _ _ Ew);
+       match goal with |- context [write_block ?i0 ?L0 ?src ?ex] =>
+         destruct (write_block i0 L0 src ex) as [w' ok'] eqn:Eb; cbn [fst snd];
+         replace w' with (fst (write_block i0 L0 src ex)) by (rewrite Eb; reflexivity);
+         replace ok' with (snd (write_block i0 L0 src ex)) by (rewrite Eb; reflexivity);
+         apply sh_write; [exact Hi|lia|exact I]
+       end.
 Qed.
 
 (* ---- theorems ---- *)
@@ -289,16 +297,19 @@ Theorem put_crash_atomic vs L src k :
   Forall2 (fun v v' => (d_blk v' = d_blk v \/ d_blk v' = Some KGood) /\ d_ro v' = d_ro v) vs (crash vs L src k).
 Proof.
   unfold crash. apply apply_all_F2. intros j x Hx. split; [|apply vrun_ro].
-  pose proof (put_prog_shape vs L src) as Hs. inversion Hs as [t ok Hi Hg E1 E2|t i Hi Hlt Hsrc E1 E2].
+  pose proof (put_prog_shape vs L src) as Hs. inversion Hs as [t ok Hi Hg E1 E2|t i ex Hi Hlt Hsrc E1 E2].
   - left. apply vrun_no_rename. apply no_rename_firstn. apply inert_no_rename. exact Hi.
   - rewrite firstn_app, vrun_app.
     rewrite (vrun_inert L (firstn k t)) by (intros l e X; eapply Hi; eapply firstn_In; exact X).
     destruct src as [|w|nv]; [|left; apply vrun_no_rename; apply no_rename_firstn; apply write_failed_no_rename|contradiction].
-    rewrite write_complete_split.
-    destruct (firstn_snoc_cases (write_body i L) ("WriteBlock:v.os.Rename"%string, ERename i) (k - List.length t)) as [E|[m E]]; rewrite E.
-    + rewrite <- write_complete_split. destruct (Nat.eq_dec i j) as [->|Hij].
-      * right. apply vrun_write_complete.
-      * left. rewrite vrun_write_other by exact Hij. reflexivity.
+    rewrite write_complete_split. unfold write_core.
+    destruct (firstn_mid_cases (write_body i L ex) ("WriteBlock:v.os.Rename"%string, ERename i) (unlock_steps ex) (k - List.length t)) as [[m E]|[m E]]; rewrite E.
+    + (* the rename has happened; what follows (deferred unlock/close) changes nothing *)
+      rewrite vrun_app, (vrun_inert L (firstn m (unlock_steps ex))) by (intros l e X; eapply inert_unlock; eapply firstn_In; exact X).
+      fold (write_core i L ex). destruct (Nat.eq_dec i j) as [->|Hij].
+      * right. apply vrun_write_core.
+      * left. pose proof (vrun_write_other L i j Complete ex x Hij) as O.
+        rewrite write_complete_split, vrun_app, (vrun_inert L (unlock_steps ex)) in O by apply inert_unlock. rewrite O. reflexivity.
     + left. apply vrun_no_rename. apply no_rename_firstn. apply write_body_no_rename.
 Qed.
 
@@ -330,14 +341,14 @@ Proof. apply index_entries. apply put_crash_atomic. Qed.
 Theorem put_ack_durable vs L src e : snd (put_prog vs L src) = true -> get_block (finish vs L src) e = GData.
 Proof.
   intros Hok. apply get_block_good. unfold finish.
-  pose proof (put_prog_shape vs L src) as Hs. inversion Hs as [t ok Hi Hg E1 E2|t i Hi Hlt Hsrc E1 E2].
+  pose proof (put_prog_shape vs L src) as Hs. inversion Hs as [t ok Hi Hg E1 E2|t i ex Hi Hlt Hsrc E1 E2].
   - destruct (Hg Hok) as (v & Hin & _ & Hb). apply In_nth_error in Hin. destruct Hin as [j Hj].
     exists (vrun L (fst (put_prog vs L src)) j v). split.
     + eapply nth_error_In. rewrite nth_apply_all, Hj. reflexivity.
     + rewrite vrun_inert by exact Hi. exact Hb.
   - rewrite <- E2 in Hok. destruct src as [|w|nv]; [|cbn in Hok; discriminate|contradiction].
     destruct (nth_error vs i) as [x|] eqn:Ex; [|apply nth_error_None in Ex; lia].
-    exists (vrun L (t ++ fst (write_block i L Complete)) i x). split.
+    exists (vrun L (t ++ fst (write_block i L Complete ex)) i x). split.
     + eapply nth_error_In. rewrite nth_apply_all, Ex. reflexivity.
     + rewrite vrun_app, (vrun_inert L t) by exact Hi. apply vrun_write_complete.
 Qed.
@@ -349,13 +360,13 @@ Theorem put_cancel_safe vs L src :
   Forall2 (fun v v' => d_blk v' = d_blk v /\ (d_tmp v = None -> d_tmp v' = None)) vs (finish vs L src) /\
   snd (put_prog vs L src) = false \/ (exists v, In v vs /\ d_ro v = false /\ d_blk v = Some KGood).
 Proof.
-  intros Hsrc. pose proof (put_prog_shape vs L src) as Hs. inversion Hs as [t ok Hi Hg E1 E2|t i Hi Hlt Hs' E1 E2].
+  intros Hsrc. pose proof (put_prog_shape vs L src) as Hs. inversion Hs as [t ok Hi Hg E1 E2|t i ex Hi Hlt Hs' E1 E2].
   - destruct ok; [right; apply Hg; symmetry; exact E2|left]. split; [|symmetry; exact E2].
     unfold finish. apply apply_all_F2. intros j x _. rewrite vrun_inert by exact Hi. auto.
   - left. destruct src as [|w|nv]; [contradiction| |contradiction]. split; [|reflexivity].
     unfold finish. rewrite <- E1. apply apply_all_F2. intros j x _. rewrite vrun_app, (vrun_inert L t) by exact Hi.
     destruct (Nat.eq_dec i j) as [->|Hij].
-    + destruct (vrun_write_failed L j w x) as [A B]. split; [exact A|intros _; exact B].
+    + destruct (vrun_write_failed L j w ex x) as [A B]. split; [exact A|intros _; exact B].
     + rewrite vrun_write_other by exact Hij. auto.
 Qed.
 
@@ -364,7 +375,7 @@ Qed.
 Theorem handler_ack_after_put vs L src : snd (put_prog vs L src) = true ->
   src = Complete \/ exists v, In v vs /\ d_ro v = false /\ d_blk v = Some KGood.
 Proof.
-  intros Hok. pose proof (put_prog_shape vs L src) as Hs. inversion Hs as [t ok Hi Hg E1 E2|t i Hi Hlt Hs' E1 E2].
+  intros Hok. pose proof (put_prog_shape vs L src) as Hs. inversion Hs as [t ok Hi Hg E1 E2|t i ex Hi Hlt Hs' E1 E2].
   - right. apply Hg. exact Hok.
   - rewrite <- E2 in Hok. destruct src; [left; reflexivity|cbn in Hok; discriminate|contradiction].
 Qed.
@@ -377,9 +388,11 @@ Proof. destruct (get_block vs e); eauto. Qed.
 (* examples: hypotheses are satisfiable *)
 Example ex_prog : map fst (fst (put_prog [D false true (Some (KCorrupt 5)) None] 40000 Complete)) =
   ["stat:v.os.Stat"; "getFunc:v.os.Open"; "getFunc:defer:f.Close"; "WriteBlock:os.MkdirAll"; "WriteBlock:v.os.TempFile";
-   "WriteBlock:write:tmpfile"; "WriteBlock:write:tmpfile"; "WriteBlock:tmpfile.Close"; "WriteBlock:os.Chtimes"; "WriteBlock:v.os.Rename"]%string.
+   "WriteBlock:write:tmpfile"; "WriteBlock:write:tmpfile"; "WriteBlock:tmpfile.Close"; "WriteBlock:os.Chtimes";
+   "WriteBlock:v.os.OpenFile"; "WriteBlock:v.lockfile"; "WriteBlock:v.os.Rename";
+   "WriteBlock:defer:v.unlockfile"; "WriteBlock:defer:old.Close"]%string.
 Proof. vm_compute. reflexivity. Qed.
-Example ex_crash_mid : crash [D false true (Some (KCorrupt 5)) None] 40000 Complete 7 = [D false true (Some (KCorrupt 5)) (Some 40000)].
+Example ex_crash_mid : crash [D false true (Some (KCorrupt 5)) None] 40000 Complete 10 = [D false true (Some (KCorrupt 5)) (Some 40000)].
 Proof. vm_compute. reflexivity. Qed.
 Example ex_finish : finish [D false true (Some (KCorrupt 5)) None] 40000 Complete = [D false true (Some KGood) None].
 Proof. vm_compute. reflexivity. Qed.
